@@ -96,6 +96,11 @@ where
                 // For method errors, always increment since there won't be more replies.
                 *this.current_index += 1;
             }
+            Err(crate::Error::VarlinkService(_)) => {
+                // An `org.varlink.service` error is the reply to this call only; the replies to
+                // the remaining calls still follow.
+                *this.current_index += 1;
+            }
             Err(_) => {
                 // If there was a general error, mark the stream as done as it's likely not
                 // recoverable.
